@@ -723,7 +723,7 @@ Proof.
   assert (Hu : regu u s) by (exists a; auto).
   destruct (match a_st a, e_msg e with Terminated, SWatch => false | Terminated, _ => true | _, _ => false end);
     [intros H; inversion H; subst; auto|].
-  destruct (e_msg e) as [| |g|who| |r| | | |] eqn:Em.
+  destruct (e_msg e) as [| |g|who| |r| | | | |] eqn:Em.
   - (* SLaunch *) destruct (handle roles s u TL 0%nat (e_snd e)) as [[s1 o1] p1] eqn:E1.
     destruct (A_handle _ _ _ _ _ _ _ _ HI Hu E1) as [I1 R1]. unfold bind. destruct p1; [intros H; inversion H; subst; split; [exact I1|apply hor_of_regu; exact R1]|].
     intros H; inversion H; subst.
@@ -785,6 +785,8 @@ Proof.
   - (* SUnwatch *) intros H; inversion H; subst. apply QK. apply qk_upd_actor; [qp|exact Ho].
   - intros H; inversion H; subst; auto.
   - intros H; inversion H; subst; auto.
+  - (* SResumeReq *) destruct (a_st a); intros H; inversion H; subst; auto.
+    apply QK. apply qk_deliver_sys. apply HI.
 Qed.
 
 Lemma A_process_user s u e s' o p : Inv s -> hor u s -> process_user roles s u e = (s', o, p) -> Inv s' /\ hor u s'.
